@@ -132,6 +132,29 @@ def run(ctx, pid, props_file, profiles, variants, n_quick, n_thorough, assumptio
                         jmeta.append((k, v, par))
         impl, ilines, raw = S.run_impl(ctx, jobs, 'sys-i')
         evaluations = len(jobs)
+        # exact tie of the faithful models of MVP-4/5/6.0 on the same programs, outside the clean domain too
+        try:
+            from . import modeltie
+            mt_cex, mt_broken, mt_stats = modeltie.tie(ctx, progs, spec, variants, tag='sys-mt', step=4 if ctx.tier == 'quick' else 2)
+        except Exception as e:     # the tie must never hide the differential's own result
+            mt_cex, mt_broken, mt_stats = [], [], {'error': repr(e)[:300]}
+        pre_cov['model_tie'] = mt_stats
+        evaluations += 2 * mt_stats.get('compared', 0)
+        for rec in mt_cex[:2]:
+            found = True
+            p, s = progs[rec['k']], spec[rec['k']]
+            ctx.violation('counterexample',
+                          'MVP-%s x%d no longer computes the sequential result on a program on which the pinned code (its faithful model) does: %s | expected r=%s m=%s | model %s | observed %s' %
+                          (rec['variant'], rec['par'], p.asm().replace('|', '; ')[:400], s[2], s[3], rec['model'][:200], rec['impl'][:200]),
+                          {'variant': rec['variant'], 'parallelism': rec['par'], 'profile': p.profile, 'program': p.asm(), 'regs': p.regs, 'mem': p.mem,
+                           'memsize': p.memsize, 'expected': {'kind': s[0], 'steps': s[1], 'regs': s[2], 'mem': s[3]}, 'model': rec['model'], 'observed': rec['impl'],
+                           'harness_cmd': 'run', 'go_case': rec['line'], 'oracle_cmd': 'seq', 'spec_case': p.spec_case(S.FUEL), 'source': 'model tie (outside or inside the calibrated domain)'})
+        if mt_broken:
+            rec = mt_broken[0]
+            ctx.broken.append({'file': 'coq/theories/Mvp/Mvp%s.v' % rec['variant'].replace('.', ''), 'line': None,
+                               'lemma': 'correspondence of the MVP-%s cycle-level model with the Go variant (cycles, registers, memory) at %d unit(s)' % (rec['variant'], rec['par']),
+                               'error': 'model %s | implementation %s | %d disagreement(s) | %s' % (rec['model'][:200], rec['impl'][:200], len(mt_broken), progs[rec['k']].asm().replace('|', '; ')[:300]),
+                               'harness_cmd': 'run', 'go_case': rec['line']})
         fails = []
         for (k, v, par), i, line, r in zip(jmeta, impl, ilines, raw):
             p, s = progs[k], spec[k]
